@@ -338,19 +338,43 @@ func init() {
 			ie, de := enc(get("InsertEntry")), enc(get("DeleteEntry"))
 			r.Check(ie == de, nm+":insert-delete-same-key-encoding", "InsertEntry and DeleteEntry derive the container key with the same helpers", fmt.Sprintf("%s: insert uses {%s}, delete uses {%s}", nm, ie, de))
 			if canReturn {
-				// delete (old) then insert (new)
+				// delete (old) then insert (new): the two halves are the type's DeleteEntry / InsertEntry or their private helpers
+				halves := func(m string) map[*types.Func]bool {
+					set := map[*types.Func]bool{}
+					for _, f := range w.FuncAndHelpers(get(m)) {
+						if o, ok := f.Object().(*types.Func); ok {
+							set[o] = true
+						}
+					}
+					return set
+				}
+				delSet, insSet := halves("DeleteEntry"), halves("InsertEntry")
 				var inner []*types.Func
-				for _, m := range []string{"deleteEntryInner", "insertEntryInner"} {
-					o, _, _ := types.LookupFieldOrMethod(types.NewPointer(impl), true, impl.Obj().Pkg(), m)
-					if f, ok := o.(*types.Func); ok {
-						inner = append(inner, f)
+				for pass, set := range []map[*types.Func]bool{delSet, insSet} {
+					other := insSet
+					if pass == 1 {
+						other = delSet
+					}
+					var found *types.Func
+					EachCall(upd, func(c ssa.CallInstruction) {
+						if o := CalleeObj(c); o != nil && set[o] && !other[o] && found == nil {
+							found = o
+						}
+					})
+					if found != nil {
+						inner = append(inner, found)
 					}
 				}
+				r.Check(len(inner) == 2, nm+".UpdateEntry:two-halves", "UpdateEntry is built from the type's delete half and insert half", "could not identify a call to the delete half and a call to the insert half")
 				if len(inner) == 2 {
 					wit := (&PathQ{Fn: upd, Avoid: InstrCallsObj(inner[0]), Target: isReturn}).FromEntry()
 					r.Check(wit == nil, nm+".UpdateEntry:deletes-old-entry", "UpdateEntry removes the old entry on every path", "path: "+w.DescribeWitness(upd, wit))
 					wit = (&PathQ{Fn: upd, Avoid: InstrCallsObj(inner[1]), Target: isReturn}).FromEntry()
 					r.Check(wit == nil, nm+".UpdateEntry:inserts-new-entry", "UpdateEntry inserts the new entry on every path", "path: "+w.DescribeWitness(upd, wit))
+					// order: a container refuses or overwrites an entry that is already present, so when the old and the new (key, RID)
+					// are the same pair (UPDATE that keeps the indexed value) insert-then-delete removes the row's only entry
+					wit = (&PathQ{Fn: upd, Avoid: InstrCallsObj(inner[0]), Target: InstrCallsObj(inner[1])}).FromEntry()
+					r.Check(wit == nil, nm+".UpdateEntry:delete-before-insert", "the old entry is removed before the new one is added", "path reaching the insert half with the old entry still present: "+w.DescribeWitness(upd, wit))
 					// arguments: delete gets (oldKey, oldRID), insert gets (newKey, newRID)
 					for _, s := range sitesCalling(upd, inner[0]) {
 						c := s.(*ssa.Call)
